@@ -37,7 +37,11 @@ def one(args):
     tmp = tempfile.mkdtemp(prefix=f"try-{mid}-", dir=os.environ.get("TMPDIR", "/tmp"))
     try:
         shutil.copytree(os.path.join(REPO, "src"), os.path.join(tmp, "src"))
-        p = subprocess.run(["patch", "-p1", "-s", "-i", os.path.join(src, "patch.diff")], cwd=tmp, capture_output=True, text=True)
+        if mid.startswith("F-"):
+            cmd = ["patch", "-R", "-p1", "-s", "-i", os.path.join(VERIF, "selftest", "defects", mid + ".diff")]
+        else:
+            cmd = ["patch", "-p1", "-s", "-i", os.path.join(src, "patch.diff")]
+        p = subprocess.run(cmd, cwd=tmp, capture_output=True, text=True)
         if p.returncode:
             return mid, {"_": (99, ["patch failed: " + (p.stdout + p.stderr)[-200:]])}
         return mid, run_checks(tmp, pids)
@@ -56,6 +60,11 @@ def main():
         ids = [m for m in sorted(os.listdir(os.path.join(VERIF, "seeded"))) if any(m.startswith(i) for i in ids)]
     avail = available()
     jobs = []
+    if "--defects" in args:
+        kf = json.load(open(os.path.join(VERIF, "known_findings.json")))
+        for ent in kf["fixed"]:
+            jobs.append((ent["tag"], [p for p in avail if p in ent["properties"]]))
+        ids = []
     for mid in ids:
         meta = json.load(open(os.path.join(VERIF, "seeded", mid, "meta.json")))
         own = meta["breaks_property"]
@@ -67,6 +76,8 @@ def main():
     for mid, res in results:
         own = mid.split("-")[0]
         fired = [p for p, (rc, _) in res.items() if rc == 1]
+        if mid.startswith("F-"):
+            own = fired[0] if fired else (next(iter(res)) if res else "?")
         errs = [p for p, (rc, _) in res.items() if rc not in (0, 1)]
         status = "CAUGHT" if own in fired else ("caught-by-other" if fired else ("ERROR" if errs else ("no-check" if own not in res else "MISSED")))
         if own in fired:
